@@ -1,6 +1,8 @@
 import Model
 import Proofs.Order
 import Proofs.Frozen
+import Proofs.Intruder
+import Proofs.WFCheck
 /-!
 C09 — lower-priority work never disturbs higher-priority work.
 
@@ -9,8 +11,8 @@ its last element; the loop always picks the first ready task of the list — so 
 only when none of the other remaining tasks is ready, and of two ready competitors the one with the
 strictly higher priority is picked first.  And what is placed later cannot disturb what was placed earlier:
 a completed task keeps its dates and every one of its bookings until the end of the loop (`placed_is_frozen`).
-Partial: that the other tasks' results are *identical in the two runs* (with and without the added task) is the
-metamorphic part of the tie — it needs a congruence of every scheduler function in the environment.
+The relation between the two runs — with and without the added task — is `lowest_priority_intruder_harmless`
+(`Proofs/Intruder`: a congruence of every scheduler function in the environment, and a simulation of the two pick loops).
 -/
 namespace SP.C09
 open SP
@@ -76,5 +78,83 @@ theorem one_round_frozen (e : Env) (σ : St) (t0 t : Nat) (hlf : (e.taskD t).lea
   round_frozen e σ t0 t hlf hd
 
 example : ([0, 1, 2] : List Nat).Nodup := by decide
+
+/-! ### the two runs -/
+
+/-- decidable form of the hypotheses of the two-run theorem for the project `e` and the added task `zd` -/
+def intrCheck (e : Env) (zd : TaskD) : Bool :=
+  (List.range e.tasks.size).all (fun t =>
+    (match (e.taskD t).parent with | some p => decide (p < t) | none => true) &&
+    (e.taskD t).allDeps.all (fun dp => dp.target != e.tasks.size) &&
+    (e.taskD t).deps.all (fun dp => dp.target != e.tasks.size) &&
+    !(e.taskD t).children.contains e.tasks.size &&
+    decide ((e.taskD t).prio > zd.prio) && (e.taskD t).forward) &&
+  zd.leaf && zd.parent.isNone && zd.allDeps.isEmpty && zd.deps.isEmpty && zd.limits.isEmpty && zd.forward && !e.projAlap
+
+theorem intrCheck_sound (e : Env) (zd : TaskD) (h : intrCheck e zd = true) :
+    Intr e zd ∧ FwdEnv e ∧ zd.forward = true ∧ ∀ t, t < e.tasks.size → (e.taskD t).prio > zd.prio := by
+  unfold intrCheck at h
+  simp only [Bool.and_eq_true, List.all_eq_true, List.mem_range, Bool.not_eq_true', decide_eq_true_eq,
+    Option.isNone_iff_eq_none, List.isEmpty_iff, bne_iff_ne, ne_eq] at h
+  obtain ⟨⟨⟨⟨⟨⟨⟨hall, hleaf⟩, hpar⟩, hdeps⟩, hdeps'⟩, hlim⟩, hfwd⟩, hproj⟩ := h
+  have hin : ∀ t, e.tasks.size ≤ t → e.taskD t = {} := fun t ht => taskD_default e t ht
+  refine ⟨⟨?_, hleaf, hpar, hdeps, hdeps', hlim, ?_, ?_, ?_⟩, ⟨hproj, ?_⟩, hfwd, ?_⟩
+  · intro t p hp
+    by_cases ht : t < e.tasks.size
+    · have := (hall t ht).1.1.1.1.1
+      rw [hp] at this; simpa using this
+    · rw [hin t (by omega)] at hp; cases hp
+  · intro t dp hdp
+    by_cases ht : t < e.tasks.size
+    · exact (hall t ht).1.1.1.1.2 dp hdp
+    · rw [hin t (by omega)] at hdp; cases hdp
+  · intro t dp hdp
+    by_cases ht : t < e.tasks.size
+    · exact (hall t ht).1.1.1.2 dp hdp
+    · rw [hin t (by omega)] at hdp; cases hdp
+  · intro t hc
+    by_cases ht : t < e.tasks.size
+    · have := (hall t ht).1.1.2
+      rw [List.contains_eq_mem] at this
+      simp at this
+      exact this hc
+    · rw [hin t (by omega)] at hc; cases hc
+  · intro t
+    by_cases ht : t < e.tasks.size
+    · exact (hall t ht).2
+    · rw [hin t (by omega)]
+  · intro t ht
+    exact (hall t ht).1.2
+
+/-- **C09, the two runs** (`Proofs/Intruder`).  `ext e zd` is the forward project `e` with one more task `zd` appended — a
+    top-level leaf without dependencies and limits of its own that nothing depends on and no container holds, whose priority
+    is strictly lower than every other task's; resources, calendars, limits and horizon are those of `e` ("everything still
+    fits the horizon").  Then in the schedule of `ext e zd` every other task has exactly the attributes — scheduled flag,
+    start, end — it has in the schedule of `e`: whatever the added task's effort, resource, pinned start or calendar
+    position, however the two compete for resources and limits. -/
+theorem lowest_priority_intruder_harmless (e : Env) (zd : TaskD) (hi : Intr e zd) (tr : Tree e) (hfe : FwdEnv e)
+    (hz : zd.forward = true) (hlow : ∀ t, t < e.tasks.size → (e.taskD t).prio > zd.prio) :
+    ∀ t, t ≠ e.tasks.size → (runScenario (ext e zd)).tst t = (runScenario e).tst t :=
+  runScenario_intruder e zd hi tr hfe hz hlow
+
+/-- the same under the decidable checks -/
+theorem lowest_priority_intruder_harmless_checked (e : Env) (zd : TaskD) (h : intrCheck e zd = true)
+    (htr : treeCheck e = true) :
+    ∀ t, t < e.tasks.size → (runScenario (ext e zd)).tst t = (runScenario e).tst t := by
+  obtain ⟨hi, hfe, hz, hlow⟩ := intrCheck_sound e zd h
+  intro t ht
+  exact lowest_priority_intruder_harmless e zd hi (treeCheck_sound e htr) hfe hz hlow t (by omega)
+
+/-- non-vacuity: two tasks on one resource, and an added 3 h task of priority 1 on the same resource -/
+def base2 : RawProj :=
+  { G := 3600, start := 1736121600, stop := 1737331200,
+    res := [{}],
+    tasks := [{ effort := some 4, alloc := some ([0], []) },
+              { effort := some 2, alloc := some ([0], []), deps := [{ target := 0 }] }] }
+
+def zlow : TaskD := { effort := 3, hasAlloc := true, alloc := [0], prio := 1 }
+
+example : intrCheck (elaborate base2).env zlow = true := by decide +kernel
+example : treeCheck (elaborate base2).env = true := by decide +kernel
 
 end SP.C09
